@@ -96,7 +96,7 @@ def evaluate(prog: Program, f: Func, e: ast.AST, depth: int = 0) -> Optional[Per
         return None
     if isinstance(e, ast.List) and not e.elts:
         return None
-    if isinstance(e, ast.ListComp):
+    if isinstance(e, astx.LCOMP):
         gens = e.generators
         if any(g.ifs for g in gens):
             return None
